@@ -45,7 +45,7 @@ func loadKnown(path string) *KnownFile {
 func (k *KnownFile) match(prop string, f *Finding) *KnownEntry {
 	for i := range k.Known {
 		e := &k.Known[i]
-		if e.Property != prop || e.Harness != f.Harness || e.Assertion != f.Assertion {
+		if e.Property != prop || e.Harness != f.Harness || (e.Assertion != f.Assertion && e.Assertion != "*") {
 			continue
 		}
 		if e.Site != "" && !strings.HasPrefix(f.Site, e.Site) {
